@@ -85,10 +85,10 @@ def step (hasVersions last : Bool) (s : St) (ev : Event) : St :=
       else s.cur
     { s with cur := cur, curIn := true }
 
+/-- The event loop; an event is the last one when nothing follows it. -/
 def run (hasVersions : Bool) : St → List Event → St
   | s, [] => s
-  | s, [e] => step hasVersions true s e
-  | s, e :: e' :: r => run hasVersions (step hasVersions false s e) (e' :: r)
+  | s, e :: r => run hasVersions (step hasVersions r.isEmpty s e) r
 
 /-- `vers` after the event loop.  (A cell recorded twice — `introduced` as the
     last event after a closing event of the same cell — appears twice: both
@@ -109,5 +109,116 @@ def cellRange (c : Cell) : Range := { lower := c.lower, upper := c.upper }
 
 /-- Is the (projected) version inside one of the ranges? -/
 def covers (cells : List Cell) (v : Version) : Bool := cells.any fun c => contains (cellRange c) v
+
+/-! ### event lists that describe intervals -/
+
+/-- How an interval ends. -/
+inductive Close where
+  | none                                  -- no closing event: unbounded
+  | fixed (s : List Char)
+  | lastAffected (s : List Char)
+  | limitStar
+  deriving Repr, DecidableEq
+
+/-- `introduced` (a version or "0") and at most one closing event. -/
+structure Interval where
+  intro : List Char
+  close : Close
+  deriving Repr, DecidableEq
+
+def closeEvents : Close → List Event
+  | .none => []
+  | .fixed s => [{ fixed := s }]
+  | .lastAffected s => [{ lastAffected := s }]
+  | .limitStar => [{ limit := ['*'] }]
+
+/-- The events of a list of intervals, in the order given. -/
+def eventsOf : List Interval → List Event
+  | [] => []
+  | iv :: rest => { introduced := iv.intro } :: (closeEvents iv.close ++ eventsOf rest)
+
+def Close.textOK : Close → Bool
+  | .fixed s => !s.isEmpty
+  | .lastAffected s => !s.isEmpty
+  | _ => true
+
+/-- Every `introduced` and every closing version is a non-empty string, and
+    every interval but the last has its closing event. -/
+def wellShaped : List Interval → Bool
+  | [] => true
+  | [iv] => !iv.intro.isEmpty && iv.close.textOK
+  | iv :: rest => !iv.intro.isEmpty && iv.close.textOK && iv.close != .none && wellShaped rest
+
+def infV : Version := { kind := semverKind, v := [65535, 0, 0, 0, 0, 0, 0, 0, 0, 0] }
+
+/-- The lower bound an `introduced` event leaves in a fresh cell. -/
+def lowerOf (intro : List Char) : Version :=
+  if intro = ['0'] then { kind := semverKind, v := zeroV.v }
+  else match Semver.parse intro with
+    | some v => Semver.project v
+    | none => zeroV
+
+/-- The cell of one interval as the event loop leaves it. -/
+def cellOf (hasVersions : Bool) (iv : Interval) : Cell :=
+  match iv.close with
+  | .none => { lower := lowerOf iv.intro }
+  | .fixed s =>
+    (match Semver.parse s with
+     | some v => { lower := lowerOf iv.intro, upper := Semver.project v, fixedIn := s }
+     | none => { lower := lowerOf iv.intro })
+  | .lastAffected s =>
+    if hasVersions then { lower := lowerOf iv.intro } else
+    (match Semver.parse s with
+     | some v => { lower := lowerOf iv.intro, upper := Semver.project (Semver.incPatch v) }
+     | none => { lower := lowerOf iv.intro })
+  | .limitStar => { lower := lowerOf iv.intro, upper := infV }
+
+/-! ### what the intervals mean (OSV schema), on parsed versions -/
+
+/-- All three numbers are in `[0, MaxInt32)` (so that `patch + 1` still fits). -/
+def small (v : Semver.SV) : Bool :=
+  decide (0 ≤ v.major) && decide (v.major < 2147483647) && decide (0 ≤ v.minor) && decide (v.minor < 2147483647) &&
+  decide (0 ≤ v.patch) && decide (v.patch < 2147483647)
+
+/-- The text is a semantic version without pre-release and with small numbers. -/
+def cleanText (s : List Char) : Bool :=
+  match Semver.parse s with
+  | some v => v.pre.isEmpty && small v
+  | none => false
+
+def Interval.clean (iv : Interval) : Bool :=
+  (iv.intro = ['0'] || cleanText iv.intro) &&
+  (match iv.close with
+   | .fixed s => cleanText s
+   | .lastAffected s => cleanText s
+   | _ => true)
+
+/-- `introduced ≤ v` ("0" is below everything). -/
+def lowerAffected (intro : List Char) (v : Semver.SV) : Bool :=
+  intro = ['0'] ||
+    (match Semver.parse intro with
+     | some a => Semver.cmp a v != .gt
+     | none => false)
+
+/-- `v < fixed`, `v ≤ last_affected`; no closing event or `limit: "*"` leave
+    the interval unbounded. -/
+def upperAffected (c : Close) (v : Semver.SV) : Bool :=
+  match c with
+  | .none => true
+  | .limitStar => true
+  | .fixed s => (match Semver.parse s with
+    | some b => Semver.cmp v b == .lt
+    | none => false)
+  | .lastAffected s => (match Semver.parse s with
+    | some b => Semver.cmp v b != .gt
+    | none => false)
+
+/-- The schema's reading of one interval, with Masterminds' `Compare` as the order. -/
+def affectedBy (iv : Interval) (v : Semver.SV) : Bool :=
+  lowerAffected iv.intro v && upperAffected iv.close v
+
+def Close.isLastAffected : Close → Bool
+  | .lastAffected _ => true
+  | _ => false
 
 end ClairModel.OsvRange
